@@ -57,6 +57,8 @@ pub struct JobResult {
 thread_local! {
     static WANT_SCRIPT: std::cell::Cell<bool> = std::cell::Cell::new(false);
 }
+/// number of standalone obligation scripts still wanted for the cross-solver check
+pub static XCHECK_WANTED: std::sync::atomic::AtomicIsize = std::sync::atomic::AtomicIsize::new(0);
 pub fn set_want_script(b: bool) {
     WANT_SCRIPT.with(|w| w.set(b));
 }
@@ -135,7 +137,8 @@ pub fn decide(d: Decide) -> PathReport {
     };
     // --- the deciding step: is pc ∧ ¬goal satisfiable?
     let neg = tm::not(goal);
-    if WANT_SCRIPT.with(|w| w.get()) && neg != tm::FALSE {
+    // cross-solver sample: the first non-trivial obligation of a job, while scripts are still wanted
+    if neg != tm::FALSE && (WANT_SCRIPT.with(|w| w.get()) || (with_ctx(|c| c.stats.paths) == 0 && XCHECK_WANTED.fetch_sub(1, Ordering::SeqCst) > 0)) {
         rep.script = Some(standalone_script(neg));
     }
     let (r, vm) = check_sat_with(neg, true);
@@ -322,6 +325,7 @@ pub fn summarise(results: &[JobResult], functions: &[&str], bounds: &str, cfg_no
         ("jobs_not_run_budget_count", J::I(not_run.len() as i64)),
         ("jobs_not_run_budget", J::A(not_run.into_iter().take(40).collect())),
         ("infeasible_paths", J::I(infeasible as i64)),
+        ("enumerated_choices", J::I(results.iter().map(|r| r.stats.enumerated as i64).sum())),
         ("solver_unknown_final_obligations", J::I(unknowns as i64)),
         ("outcome_classes", J::O(classes.into_iter().map(|(k, v)| (k, J::I(v as i64))).collect())),
         ("functions_encoded", J::A(functions.iter().map(|f| J::s(f)).collect())),
